@@ -80,6 +80,9 @@ def op_striped_array_max(ctx, e, ops, N, poison):
 def op_striped_array_mean(ctx, e, ops, N, poison):
     t = ctx.tape
     vals = np.abs(_striped_values(ctx, N)) + 0.01     # the routine asserts global_sum >= local_sum
+    if N >= 2 and t.flag(1, 4):
+        vals = vals[:t.irange(1, N - 1)]              # fewer elements than ranks: some ranks hold nothing
+        ctx.hit('striped_mean_with_empty_shares')
     # uneven share: rank r gets vals[r::N]
     ctx.fp('mean', N, vals.tobytes())
     ctx.scenario['values'] = vals.tolist()
